@@ -26,7 +26,7 @@ void FS::reset() {
   // real FILE*s of leaked handles are left to the caller; forget the mapping
   handles.clear();
   files.clear();
-  chunk_.clear(); faults_.clear(); dead_.clear();
+  chunk_.clear(); faults_.clear(); dead_.clear(); chunk_exempt_suffixes.clear();
   journal_on_ = false; journal_.clear(); base_names_.clear(); base_data_.clear();
   stats = FsStats();
   call_seq = 0;
@@ -194,6 +194,8 @@ bool pre_call(int kind, std::string const &path, int &walker) {
   sched_yield(Y_FILE, path_hash(path, kind));
   F.call_seq++;
   F.stats.calls[kind]++;
+  static const bool trace = getenv("CVSIM_FSTRACE") != nullptr;
+  if (trace) fprintf(stderr, "fs %llu w%d %s %s%s\n", (unsigned long long)F.call_seq, walker, fs_kind_names[kind], path.c_str(), F.is_dead(walker) ? " [dead]" : "");
   if (F.is_dead(walker)) { F.stats.zombie_calls++; return true; }
   return false;
 }
@@ -264,6 +266,7 @@ ssize_t sim_write(int fd, const void *buf, size_t n) {
     }
   }
   size_t chunk = F.chunk_of(walker);
+  for (auto const &sx : F.chunk_exempt_suffixes) if (path.size() >= sx.size() && path.compare(path.size() - sx.size(), sx.size(), sx) == 0) chunk = 0;
   if (!die_after && chunk && n > chunk) { n = chunk; durable = n; F.stats.chunked_writes++; }
   size_t pos = h.append ? h.f->bytes.size() : h.off;
   if (durable) {
